@@ -29,6 +29,7 @@ type op struct {
 type mrule struct {
 	present bool
 	ver     string
+	sched   bool // a scheduled rule: runs for {"trigger!":id}, never for ordinary events
 }
 
 type world struct {
@@ -42,6 +43,7 @@ type world struct {
 	run           []op
 	withParent    bool
 	ver           int
+	deps          map[string]bool // loc/id of rules carrying deleteWith:["dep"]
 }
 
 func (w *world) open(name string) error {
@@ -57,7 +59,7 @@ func (w *world) open(name string) error {
 
 func newWorld(kind string, withParent bool) (*world, error) {
 	w := &world{kind: kind, stores: map[string]*core.MemStorage{}, locs: map[string]*core.Location{}, withParent: withParent,
-		rules: map[string]map[string]*mrule{"child": {}, "parent": {}}, flags: map[string]map[string]bool{"child": {}, "parent": {}}, locOff: map[string]bool{}}
+		deps: map[string]bool{}, rules: map[string]map[string]*mrule{"child": {}, "parent": {}}, flags: map[string]map[string]bool{"child": {}, "parent": {}}, locOff: map[string]bool{}}
 	w.prov = core.NewSimpleLocationProvider(map[string]*core.Location{})
 	names := []string{"child"}
 	if withParent {
@@ -75,6 +77,10 @@ func newWorld(kind string, withParent bool) (*world, error) {
 		}
 	}
 	return w, nil
+}
+
+func schedRuleMap(id, ver string) core.Map {
+	return core.Map{"schedule": "0 0 1 1 *", "action": map[string]interface{}{"code": fmt.Sprintf("%q", ver)}}
 }
 
 func ruleMap(id, ver string) core.Map {
@@ -109,24 +115,58 @@ func (w *world) apply(r *rep.Report, o op) {
 	case "add":
 		_, err := loc.AddRule(ctx, o.Id, ruleMap(o.Id, o.Ver))
 		if check(err) {
-			w.rules[o.Loc][o.Id] = &mrule{true, o.Ver}
+			w.rules[o.Loc][o.Id] = &mrule{true, o.Ver, false}
+			delete(w.deps, o.Loc+"/"+o.Id)
+		}
+	case "addSched":
+		_, err := loc.AddRule(ctx, o.Id, schedRuleMap(o.Id, o.Ver))
+		if check(err) {
+			w.rules[o.Loc][o.Id] = &mrule{true, o.Ver, true}
+			delete(w.deps, o.Loc+"/"+o.Id)
+		}
+	case "addDep":
+		// a rule that is deleted with the fact "dep"
+		rm := ruleMap(o.Id, o.Ver)
+		rm["deleteWith"] = []interface{}{"dep"}
+		_, err := loc.AddRule(ctx, o.Id, rm)
+		if check(err) {
+			w.rules[o.Loc][o.Id] = &mrule{true, o.Ver, false}
+			w.deps[o.Loc+"/"+o.Id] = true
+		}
+	case "depTarget":
+		_, err := loc.AddFact(ctx, "dep", core.Map{"is": "target"})
+		check(err)
+	case "remDepTarget":
+		_, err := loc.RemFact(ctx, "dep")
+		if check(err) {
+			for k := range w.deps {
+				if strings.HasPrefix(k, o.Loc+"/") {
+					id := strings.TrimPrefix(k, o.Loc+"/")
+					delete(w.rules[o.Loc], id)
+					delete(w.flags[o.Loc], id)
+					delete(w.deps, k)
+				}
+			}
 		}
 	case "rem":
 		_, err := loc.RemRule(ctx, o.Id)
 		if check(err) {
 			delete(w.rules[o.Loc], o.Id)
 			delete(w.flags[o.Loc], o.Id)
+			delete(w.deps, o.Loc+"/"+o.Id)
 		}
 	case "remFact":
 		_, err := loc.RemFact(ctx, o.Id)
 		if check(err) {
 			delete(w.rules[o.Loc], o.Id)
 			delete(w.flags[o.Loc], o.Id) // the flag is a dependent of the id
+			delete(w.deps, o.Loc+"/"+o.Id)
 		}
 	case "overFact":
 		_, err := loc.AddFact(ctx, o.Id, core.Map{"plain": o.Id})
 		if check(err) {
 			delete(w.rules[o.Loc], o.Id)
+			delete(w.deps, o.Loc+"/"+o.Id)
 		}
 	case "disable":
 		err := loc.EnableRule(ctx, o.Id, false)
@@ -186,6 +226,18 @@ func (w *world) apply(r *rep.Report, o op) {
 }
 
 // expectFire: which version tags an event {"e":id} sent to location `at` must produce.
+// expectTrigger: which version a {"trigger!":id} event sent to `at` must run (own scheduled rules only).
+func (w *world) expectTrigger(at, id string) []string {
+	out := []string{}
+	if w.locOff[at] {
+		return nil
+	}
+	if ru, ok := w.rules[at][id]; ok && ru.present && ru.sched && !w.flags[at][id] {
+		out = append(out, ru.ver)
+	}
+	return out
+}
+
 func (w *world) expectFire(at, id string) []string {
 	out := []string{}
 	if w.locOff[at] {
@@ -199,7 +251,7 @@ func (w *world) expectFire(at, id string) []string {
 		srcs = append(srcs, "parent")
 	}
 	for _, s := range srcs {
-		if ru, ok := w.rules[s][id]; ok && ru.present && !w.flags[at][id] {
+		if ru, ok := w.rules[s][id]; ok && ru.present && !ru.sched && !w.flags[at][id] {
 			out = append(out, ru.ver)
 		}
 	}
@@ -264,6 +316,21 @@ func (w *world) observe(r *rep.Report, changed bool) {
 				r.Sample(rep.J{"state": w.kind, "history": w.run, "event_to": at, "event": map[string]string{"e": id}, "values": got})
 			}
 		}
+		// the cron tick path: {"trigger!":id} runs the scheduled rule of that id iff it is live and enabled
+		if !w.locOff[at] {
+			for _, id := range ids {
+				want := w.expectTrigger(at, id)
+				fr, _ := loc.ProcessEvent(drv.Ctx(), core.Map{"trigger!": id})
+				got := []string{}
+				for _, v := range fr.Values {
+					got = append(got, fmt.Sprint(v))
+				}
+				r.Count("trigger_events", 1)
+				if !ref.SameSet(got, want) {
+					r.Violate("", "a {\"trigger!\":id} event (the cron tick path) did not run exactly the live, enabled scheduled rule", rep.J{"state": w.kind, "with_parent": w.withParent, "history": w.run, "event_to": at, "id": id, "want_values": want, "got_values": got})
+				}
+			}
+		}
 		// ListRules = own present rules
 		if !w.locOff[at] {
 			lr, _ := loc.ListRules(drv.Ctx(), false)
@@ -298,7 +365,7 @@ func main() {
 				o.Loc = "parent"
 			}
 			switch k := g.Intn(26); {
-			case k < 7:
+			case k < 6:
 				ver++
 				o.Op, o.Ver = "add", fmt.Sprintf("v%d", ver)
 				if withParent {
@@ -311,6 +378,12 @@ func main() {
 						}
 					}
 				}
+			case k == 7 && !withParent:
+				ver++
+				o.Op, o.Ver = "addSched", fmt.Sprintf("v%d", ver)
+			case k == 8:
+				ver++
+				o.Op, o.Ver = []string{"addDep", "addDep", "depTarget", "remDepTarget"}[g.Intn(4)], fmt.Sprintf("v%d", ver)
 			case k < 10:
 				o.Op = "rem"
 			case k < 11:
